@@ -4928,6 +4928,2134 @@ let fama_read doc =
            else go rest cur seen
   in go (x_children doc) None []
 
+(** val uvl_operator : astop -> char list option **)
+
+let uvl_operator = function
+| EXCLUDES -> Some ('='::('>'::(' '::('!'::[]))))
+| AND -> Some ('&'::[])
+| OR -> Some ('|'::[])
+| XOR -> Some ('X'::('O'::('R'::[])))
+| NOT -> Some ('!'::[])
+| EQUIVALENCE -> Some ('<'::('='::('>'::[])))
+| EQUALS -> Some ('='::('='::[]))
+| LOWER -> Some ('<'::[])
+| GREATER -> Some ('>'::[])
+| LOWER_EQUALS -> Some ('<'::('='::[]))
+| GREATER_EQUALS -> Some ('>'::('='::[]))
+| NOT_EQUALS -> Some ('!'::('='::[]))
+| ADD -> Some ('+'::[])
+| SUB -> Some ('-'::[])
+| MUL -> Some ('*'::[])
+| DIV -> Some ('/'::[])
+| SUM -> Some ('s'::('u'::('m'::[])))
+| AVG -> Some ('a'::('v'::('g'::[])))
+| LEN -> Some ('l'::('e'::('n'::[])))
+| FLOOR -> Some ('f'::('l'::('o'::('o'::('r'::[])))))
+| CEIL -> Some ('c'::('e'::('i'::('l'::[]))))
+| _ -> Some ('='::('>'::[]))
+
+(** val uvl_keywords : char list list **)
+
+let uvl_keywords =
+  ('A'::('r'::('i'::('t'::('h'::('m'::('e'::('t'::('i'::('c'::[])))))))))) :: (('B'::('o'::('o'::('l'::('e'::('a'::('n'::[]))))))) :: (('I'::('n'::('t'::('e'::('g'::('e'::('r'::[]))))))) :: (('R'::('e'::('a'::('l'::[])))) :: (('S'::('t'::('r'::('i'::('n'::('g'::[])))))) :: (('T'::('y'::('p'::('e'::[])))) :: (('a'::('l'::('t'::('e'::('r'::('n'::('a'::('t'::('i'::('v'::('e'::[]))))))))))) :: (('a'::('s'::[])) :: (('a'::('v'::('g'::[]))) :: (('c'::('a'::('r'::('d'::('i'::('n'::('a'::('l'::('i'::('t'::('y'::[]))))))))))) :: (('c'::('e'::('i'::('l'::[])))) :: (('c'::('o'::('n'::('s'::('t'::('r'::('a'::('i'::('n'::('t'::[])))))))))) :: (('c'::('o'::('n'::('s'::('t'::('r'::('a'::('i'::('n'::('t'::('s'::[]))))))))))) :: (('f'::('a'::('l'::('s'::('e'::[]))))) :: (('f'::('e'::('a'::('t'::('u'::('r'::('e'::('s'::[])))))))) :: (('f'::('l'::('o'::('o'::('r'::[]))))) :: (('i'::('m'::('p'::('o'::('r'::('t'::('s'::[]))))))) :: (('i'::('n'::('c'::('l'::('u'::('d'::('e'::[]))))))) :: (('l'::('e'::('n'::[]))) :: (('m'::('a'::('n'::('d'::('a'::('t'::('o'::('r'::('y'::[]))))))))) :: (('n'::('a'::('m'::('e'::('s'::('p'::('a'::('c'::('e'::[]))))))))) :: (('o'::('p'::('t'::('i'::('o'::('n'::('a'::('l'::[])))))))) :: (('o'::('r'::[])) :: (('s'::('u'::('m'::[]))) :: (('t'::('r'::('u'::('e'::[])))) :: []))))))))))))))))))))))))
+
+type uvalue =
+| UVBool of char list
+| UVFloat of char list * char list
+| UVInt of char list
+| UVStr of char list
+| UVAttrs of uattr list
+| UVVector of uvalue list
+and uattr =
+| UAValue of char list * uvalue option
+| UAConstraint
+| UAOther
+
+type gkind =
+| GOr
+| GAlt
+| GOpt
+| GMand
+| GCard of char list
+
+type ufeature =
+| UFeature of char list option * char list * char list option
+   * uattr list option * ugroup list
+and ugroup =
+| UGroup of gkind * ufeature list
+
+type aggr =
+| AgSum
+| AgAvg
+| AgLen
+| AgFloor
+| AgCeil
+
+type ucst =
+| KLiteral of char list
+| KNot of ucst
+| KBin of astop * ucst * ucst
+| KParen of ucst
+| KInt of char list
+| KFloat of char list * char list
+| KStr of char list
+| KAggr of aggr * char list list
+
+type udoc = { d_root : ufeature option; d_ctcs : ucst list option }
+
+(** val is_plain_id : char list -> bool **)
+
+let is_plain_id = function
+| [] -> false
+| c::rest -> (&&) (is_alpha c) (str_forallb is_safechar rest)
+
+(** val uvl_safe_simple_name : char list -> char list **)
+
+let uvl_safe_simple_name nm =
+  if (&&) (starts_with_char '\'' nm) (ends_with_char '\'' nm)
+  then nm
+  else if (&&) (is_plain_id nm) (negb (list_existsb_eq nm uvl_keywords))
+       then nm
+       else quote nm
+
+(** val uvl_safename : char list -> char list **)
+
+let uvl_safename nm =
+  if str_contains_char '.' nm
+  then str_join ('.'::[]) (map uvl_safe_simple_name (str_split '.' nm))
+  else uvl_safe_simple_name nm
+
+(** val card_text : z -> z -> char list **)
+
+let card_text mn mx =
+  append ('['::[])
+    (append (z_to_string mn)
+      (append ('.'::('.'::[]))
+        (append (if Z.eqb mx (Zneg XH) then '*'::[] else z_to_string mx)
+          (']'::[]))))
+
+(** val float_text : char list -> char list option **)
+
+let float_text r =
+  if (||) ((||) (str_contains_char 'e' r) (str_contains_char 'E' r))
+       (str_contains_char 'n' r)
+  then None
+  else Some (if str_contains_char '.' r then r else append r ('.'::('0'::[])))
+
+(** val value_cst : aval -> uvalue result **)
+
+let rec value_cst = function
+| VNone -> Ok (UVStr ('N'::('o'::('n'::('e'::[])))))
+| VBool b ->
+  Ok (UVBool
+    (if b
+     then 't'::('r'::('u'::('e'::[])))
+     else 'f'::('a'::('l'::('s'::('e'::[]))))))
+| VInt z0 -> Ok (UVInt (z_to_string z0))
+| VFloat r ->
+  (match float_text r with
+   | Some t -> Ok (UVFloat (t, r))
+   | None -> Err OtherExn)
+| VStr s -> Ok (UVStr (append ('\''::[]) (append s ('\''::[]))))
+| VList l ->
+  (match mapM value_cst l with
+   | Ok l' -> Ok (UVVector l')
+   | Err e -> Err e)
+| VMap kv ->
+  (match mapM (fun p ->
+           let (k, x) = p in
+           (match x with
+            | VNone -> Ok (UAValue ((uvl_safename k), None))
+            | _ ->
+              (match value_cst x with
+               | Ok x' -> Ok (UAValue ((uvl_safename k), (Some x')))
+               | Err e -> Err e))) kv with
+   | Ok l -> Ok (UVAttrs l)
+   | Err e -> Err e)
+
+(** val attrs_cst : feature -> uattr list option result **)
+
+let attrs_cst f =
+  let abs =
+    if aval_truthy (info f).f_abstract
+    then (UAValue
+           (('a'::('b'::('s'::('t'::('r'::('a'::('c'::('t'::[])))))))),
+           None)) :: []
+    else []
+  in
+  (match mapM (fun a ->
+           match a.a_default with
+           | VNone -> Ok (UAValue ((uvl_safename a.a_name), None))
+           | x ->
+             (match value_cst x with
+              | Ok v' -> Ok (UAValue ((uvl_safename a.a_name), (Some v')))
+              | Err e -> Err e)) (info f).f_attrs with
+   | Ok l -> Ok (match app abs l with
+                 | [] -> None
+                 | u :: l0 -> Some (u :: l0))
+   | Err e -> Err e)
+
+(** val group_kind : relation -> gkind **)
+
+let group_kind r =
+  if rel_is_alternative r
+  then GAlt
+  else if rel_is_mandatory r
+       then GMand
+       else if rel_is_optional r
+            then GOpt
+            else if rel_is_or r
+                 then GOr
+                 else if Z.eqb (r_min r) (r_max r)
+                      then GCard
+                             (append ('['::[])
+                               (append (z_to_string (r_min r)) (']'::[])))
+                      else GCard (card_text (r_min r) (r_max r))
+
+(** val ftype_value : ftype -> char list **)
+
+let ftype_value = function
+| TBoolean -> 'B'::('o'::('o'::('l'::('e'::('a'::('n'::[]))))))
+| TInteger -> 'I'::('n'::('t'::('e'::('g'::('e'::('r'::[]))))))
+| TReal -> 'R'::('e'::('a'::('l'::[])))
+| TString -> 'S'::('t'::('r'::('i'::('n'::('g'::[])))))
+
+(** val feature_cst : feature -> ufeature result **)
+
+let rec feature_cst f = match f with
+| Feature (i, rs) ->
+  (match attrs_cst f with
+   | Ok at_ ->
+     (match mapM (fun r ->
+              let Relation (_, _, cs) = r in
+              (match mapM feature_cst cs with
+               | Ok cs' -> Ok (UGroup ((group_kind r), cs'))
+               | Err e -> Err e)) rs with
+      | Ok gs ->
+        Ok (UFeature
+          ((if feat_is_boolean f then None else Some (ftype_value i.f_type)),
+          (uvl_safename i.f_name),
+          (if feat_is_multifeature f
+           then Some (card_text i.f_cmin i.f_cmax)
+           else None), at_, gs))
+      | Err e -> Err e)
+   | Err e -> Err e)
+
+(** val aggr_of : astop -> aggr option **)
+
+let aggr_of = function
+| SUM -> Some AgSum
+| AVG -> Some AgAvg
+| LEN -> Some AgLen
+| FLOOR -> Some AgFloor
+| CEIL -> Some AgCeil
+| _ -> None
+
+(** val is_compound : node -> bool **)
+
+let is_compound n0 =
+  match n_data n0 with
+  | DOp o ->
+    (&&) (negb (astop_eqb o NOT))
+      (negb (op_in o (SUM :: (AVG :: (LEN :: (FLOOR :: (CEIL :: [])))))))
+  | _ -> false
+
+(** val node_cst : node -> ucst result **)
+
+let rec node_cst = function
+| Node (d, l, r) ->
+  let operand = fun c ->
+    match c with
+    | Some x ->
+      (match node_cst x with
+       | Ok cx -> Ok (if is_compound x then KParen cx else cx)
+       | Err e -> Err e)
+    | None -> Err AttributeError
+  in
+  (match d with
+   | DOp o ->
+     (match o with
+      | REQUIRES ->
+        (match aggr_of o with
+         | Some ag ->
+           let arg = fun c ->
+             match c with
+             | Some n1 ->
+               let Node (d0, _, _) = n1 in
+               (match d0 with
+                | DOp _ -> Err OtherExn
+                | DStr s ->
+                  Ok
+                    ((if starts_with_char '\'' s then s else uvl_safename s) :: [])
+                | _ -> Err OtherExn)
+             | None -> Ok []
+           in
+           (match arg l with
+            | Ok a1 ->
+              (match arg r with
+               | Ok a2 -> Ok (KAggr (ag, (app a1 a2)))
+               | Err e -> Err e)
+            | Err e -> Err e)
+         | None ->
+           (match operand l with
+            | Ok cl ->
+              (match operand r with
+               | Ok cr ->
+                 (match o with
+                  | REQUIRES -> Ok (KBin (IMPLIES, cl, cr))
+                  | EXCLUDES -> Ok (KBin (IMPLIES, cl, (KNot cr)))
+                  | _ -> Ok (KBin (o, cl, cr)))
+               | Err e -> Err e)
+            | Err e -> Err e))
+      | EXCLUDES ->
+        (match aggr_of o with
+         | Some ag ->
+           let arg = fun c ->
+             match c with
+             | Some n1 ->
+               let Node (d0, _, _) = n1 in
+               (match d0 with
+                | DOp _ -> Err OtherExn
+                | DStr s ->
+                  Ok
+                    ((if starts_with_char '\'' s then s else uvl_safename s) :: [])
+                | _ -> Err OtherExn)
+             | None -> Ok []
+           in
+           (match arg l with
+            | Ok a1 ->
+              (match arg r with
+               | Ok a2 -> Ok (KAggr (ag, (app a1 a2)))
+               | Err e -> Err e)
+            | Err e -> Err e)
+         | None ->
+           (match operand l with
+            | Ok cl ->
+              (match operand r with
+               | Ok cr ->
+                 (match o with
+                  | REQUIRES -> Ok (KBin (IMPLIES, cl, cr))
+                  | EXCLUDES -> Ok (KBin (IMPLIES, cl, (KNot cr)))
+                  | _ -> Ok (KBin (o, cl, cr)))
+               | Err e -> Err e)
+            | Err e -> Err e))
+      | AND ->
+        (match aggr_of o with
+         | Some ag ->
+           let arg = fun c ->
+             match c with
+             | Some n1 ->
+               let Node (d0, _, _) = n1 in
+               (match d0 with
+                | DOp _ -> Err OtherExn
+                | DStr s ->
+                  Ok
+                    ((if starts_with_char '\'' s then s else uvl_safename s) :: [])
+                | _ -> Err OtherExn)
+             | None -> Ok []
+           in
+           (match arg l with
+            | Ok a1 ->
+              (match arg r with
+               | Ok a2 -> Ok (KAggr (ag, (app a1 a2)))
+               | Err e -> Err e)
+            | Err e -> Err e)
+         | None ->
+           (match operand l with
+            | Ok cl ->
+              (match operand r with
+               | Ok cr ->
+                 (match o with
+                  | REQUIRES -> Ok (KBin (IMPLIES, cl, cr))
+                  | EXCLUDES -> Ok (KBin (IMPLIES, cl, (KNot cr)))
+                  | _ -> Ok (KBin (o, cl, cr)))
+               | Err e -> Err e)
+            | Err e -> Err e))
+      | OR ->
+        (match aggr_of o with
+         | Some ag ->
+           let arg = fun c ->
+             match c with
+             | Some n1 ->
+               let Node (d0, _, _) = n1 in
+               (match d0 with
+                | DOp _ -> Err OtherExn
+                | DStr s ->
+                  Ok
+                    ((if starts_with_char '\'' s then s else uvl_safename s) :: [])
+                | _ -> Err OtherExn)
+             | None -> Ok []
+           in
+           (match arg l with
+            | Ok a1 ->
+              (match arg r with
+               | Ok a2 -> Ok (KAggr (ag, (app a1 a2)))
+               | Err e -> Err e)
+            | Err e -> Err e)
+         | None ->
+           (match operand l with
+            | Ok cl ->
+              (match operand r with
+               | Ok cr ->
+                 (match o with
+                  | REQUIRES -> Ok (KBin (IMPLIES, cl, cr))
+                  | EXCLUDES -> Ok (KBin (IMPLIES, cl, (KNot cr)))
+                  | _ -> Ok (KBin (o, cl, cr)))
+               | Err e -> Err e)
+            | Err e -> Err e))
+      | XOR -> Err FlamaException
+      | IMPLIES ->
+        (match aggr_of o with
+         | Some ag ->
+           let arg = fun c ->
+             match c with
+             | Some n1 ->
+               let Node (d0, _, _) = n1 in
+               (match d0 with
+                | DOp _ -> Err OtherExn
+                | DStr s ->
+                  Ok
+                    ((if starts_with_char '\'' s then s else uvl_safename s) :: [])
+                | _ -> Err OtherExn)
+             | None -> Ok []
+           in
+           (match arg l with
+            | Ok a1 ->
+              (match arg r with
+               | Ok a2 -> Ok (KAggr (ag, (app a1 a2)))
+               | Err e -> Err e)
+            | Err e -> Err e)
+         | None ->
+           (match operand l with
+            | Ok cl ->
+              (match operand r with
+               | Ok cr ->
+                 (match o with
+                  | REQUIRES -> Ok (KBin (IMPLIES, cl, cr))
+                  | EXCLUDES -> Ok (KBin (IMPLIES, cl, (KNot cr)))
+                  | _ -> Ok (KBin (o, cl, cr)))
+               | Err e -> Err e)
+            | Err e -> Err e))
+      | NOT -> (match operand l with
+                | Ok c -> Ok (KNot c)
+                | Err e -> Err e)
+      | EQUIVALENCE ->
+        (match aggr_of o with
+         | Some ag ->
+           let arg = fun c ->
+             match c with
+             | Some n1 ->
+               let Node (d0, _, _) = n1 in
+               (match d0 with
+                | DOp _ -> Err OtherExn
+                | DStr s ->
+                  Ok
+                    ((if starts_with_char '\'' s then s else uvl_safename s) :: [])
+                | _ -> Err OtherExn)
+             | None -> Ok []
+           in
+           (match arg l with
+            | Ok a1 ->
+              (match arg r with
+               | Ok a2 -> Ok (KAggr (ag, (app a1 a2)))
+               | Err e -> Err e)
+            | Err e -> Err e)
+         | None ->
+           (match operand l with
+            | Ok cl ->
+              (match operand r with
+               | Ok cr ->
+                 (match o with
+                  | REQUIRES -> Ok (KBin (IMPLIES, cl, cr))
+                  | EXCLUDES -> Ok (KBin (IMPLIES, cl, (KNot cr)))
+                  | _ -> Ok (KBin (o, cl, cr)))
+               | Err e -> Err e)
+            | Err e -> Err e))
+      | EQUALS ->
+        (match aggr_of o with
+         | Some ag ->
+           let arg = fun c ->
+             match c with
+             | Some n1 ->
+               let Node (d0, _, _) = n1 in
+               (match d0 with
+                | DOp _ -> Err OtherExn
+                | DStr s ->
+                  Ok
+                    ((if starts_with_char '\'' s then s else uvl_safename s) :: [])
+                | _ -> Err OtherExn)
+             | None -> Ok []
+           in
+           (match arg l with
+            | Ok a1 ->
+              (match arg r with
+               | Ok a2 -> Ok (KAggr (ag, (app a1 a2)))
+               | Err e -> Err e)
+            | Err e -> Err e)
+         | None ->
+           (match operand l with
+            | Ok cl ->
+              (match operand r with
+               | Ok cr ->
+                 (match o with
+                  | REQUIRES -> Ok (KBin (IMPLIES, cl, cr))
+                  | EXCLUDES -> Ok (KBin (IMPLIES, cl, (KNot cr)))
+                  | _ -> Ok (KBin (o, cl, cr)))
+               | Err e -> Err e)
+            | Err e -> Err e))
+      | LOWER ->
+        (match aggr_of o with
+         | Some ag ->
+           let arg = fun c ->
+             match c with
+             | Some n1 ->
+               let Node (d0, _, _) = n1 in
+               (match d0 with
+                | DOp _ -> Err OtherExn
+                | DStr s ->
+                  Ok
+                    ((if starts_with_char '\'' s then s else uvl_safename s) :: [])
+                | _ -> Err OtherExn)
+             | None -> Ok []
+           in
+           (match arg l with
+            | Ok a1 ->
+              (match arg r with
+               | Ok a2 -> Ok (KAggr (ag, (app a1 a2)))
+               | Err e -> Err e)
+            | Err e -> Err e)
+         | None ->
+           (match operand l with
+            | Ok cl ->
+              (match operand r with
+               | Ok cr ->
+                 (match o with
+                  | REQUIRES -> Ok (KBin (IMPLIES, cl, cr))
+                  | EXCLUDES -> Ok (KBin (IMPLIES, cl, (KNot cr)))
+                  | _ -> Ok (KBin (o, cl, cr)))
+               | Err e -> Err e)
+            | Err e -> Err e))
+      | GREATER ->
+        (match aggr_of o with
+         | Some ag ->
+           let arg = fun c ->
+             match c with
+             | Some n1 ->
+               let Node (d0, _, _) = n1 in
+               (match d0 with
+                | DOp _ -> Err OtherExn
+                | DStr s ->
+                  Ok
+                    ((if starts_with_char '\'' s then s else uvl_safename s) :: [])
+                | _ -> Err OtherExn)
+             | None -> Ok []
+           in
+           (match arg l with
+            | Ok a1 ->
+              (match arg r with
+               | Ok a2 -> Ok (KAggr (ag, (app a1 a2)))
+               | Err e -> Err e)
+            | Err e -> Err e)
+         | None ->
+           (match operand l with
+            | Ok cl ->
+              (match operand r with
+               | Ok cr ->
+                 (match o with
+                  | REQUIRES -> Ok (KBin (IMPLIES, cl, cr))
+                  | EXCLUDES -> Ok (KBin (IMPLIES, cl, (KNot cr)))
+                  | _ -> Ok (KBin (o, cl, cr)))
+               | Err e -> Err e)
+            | Err e -> Err e))
+      | LOWER_EQUALS ->
+        (match aggr_of o with
+         | Some ag ->
+           let arg = fun c ->
+             match c with
+             | Some n1 ->
+               let Node (d0, _, _) = n1 in
+               (match d0 with
+                | DOp _ -> Err OtherExn
+                | DStr s ->
+                  Ok
+                    ((if starts_with_char '\'' s then s else uvl_safename s) :: [])
+                | _ -> Err OtherExn)
+             | None -> Ok []
+           in
+           (match arg l with
+            | Ok a1 ->
+              (match arg r with
+               | Ok a2 -> Ok (KAggr (ag, (app a1 a2)))
+               | Err e -> Err e)
+            | Err e -> Err e)
+         | None ->
+           (match operand l with
+            | Ok cl ->
+              (match operand r with
+               | Ok cr ->
+                 (match o with
+                  | REQUIRES -> Ok (KBin (IMPLIES, cl, cr))
+                  | EXCLUDES -> Ok (KBin (IMPLIES, cl, (KNot cr)))
+                  | _ -> Ok (KBin (o, cl, cr)))
+               | Err e -> Err e)
+            | Err e -> Err e))
+      | GREATER_EQUALS ->
+        (match aggr_of o with
+         | Some ag ->
+           let arg = fun c ->
+             match c with
+             | Some n1 ->
+               let Node (d0, _, _) = n1 in
+               (match d0 with
+                | DOp _ -> Err OtherExn
+                | DStr s ->
+                  Ok
+                    ((if starts_with_char '\'' s then s else uvl_safename s) :: [])
+                | _ -> Err OtherExn)
+             | None -> Ok []
+           in
+           (match arg l with
+            | Ok a1 ->
+              (match arg r with
+               | Ok a2 -> Ok (KAggr (ag, (app a1 a2)))
+               | Err e -> Err e)
+            | Err e -> Err e)
+         | None ->
+           (match operand l with
+            | Ok cl ->
+              (match operand r with
+               | Ok cr ->
+                 (match o with
+                  | REQUIRES -> Ok (KBin (IMPLIES, cl, cr))
+                  | EXCLUDES -> Ok (KBin (IMPLIES, cl, (KNot cr)))
+                  | _ -> Ok (KBin (o, cl, cr)))
+               | Err e -> Err e)
+            | Err e -> Err e))
+      | NOT_EQUALS ->
+        (match aggr_of o with
+         | Some ag ->
+           let arg = fun c ->
+             match c with
+             | Some n1 ->
+               let Node (d0, _, _) = n1 in
+               (match d0 with
+                | DOp _ -> Err OtherExn
+                | DStr s ->
+                  Ok
+                    ((if starts_with_char '\'' s then s else uvl_safename s) :: [])
+                | _ -> Err OtherExn)
+             | None -> Ok []
+           in
+           (match arg l with
+            | Ok a1 ->
+              (match arg r with
+               | Ok a2 -> Ok (KAggr (ag, (app a1 a2)))
+               | Err e -> Err e)
+            | Err e -> Err e)
+         | None ->
+           (match operand l with
+            | Ok cl ->
+              (match operand r with
+               | Ok cr ->
+                 (match o with
+                  | REQUIRES -> Ok (KBin (IMPLIES, cl, cr))
+                  | EXCLUDES -> Ok (KBin (IMPLIES, cl, (KNot cr)))
+                  | _ -> Ok (KBin (o, cl, cr)))
+               | Err e -> Err e)
+            | Err e -> Err e))
+      | ADD ->
+        (match aggr_of o with
+         | Some ag ->
+           let arg = fun c ->
+             match c with
+             | Some n1 ->
+               let Node (d0, _, _) = n1 in
+               (match d0 with
+                | DOp _ -> Err OtherExn
+                | DStr s ->
+                  Ok
+                    ((if starts_with_char '\'' s then s else uvl_safename s) :: [])
+                | _ -> Err OtherExn)
+             | None -> Ok []
+           in
+           (match arg l with
+            | Ok a1 ->
+              (match arg r with
+               | Ok a2 -> Ok (KAggr (ag, (app a1 a2)))
+               | Err e -> Err e)
+            | Err e -> Err e)
+         | None ->
+           (match operand l with
+            | Ok cl ->
+              (match operand r with
+               | Ok cr ->
+                 (match o with
+                  | REQUIRES -> Ok (KBin (IMPLIES, cl, cr))
+                  | EXCLUDES -> Ok (KBin (IMPLIES, cl, (KNot cr)))
+                  | _ -> Ok (KBin (o, cl, cr)))
+               | Err e -> Err e)
+            | Err e -> Err e))
+      | SUB ->
+        (match aggr_of o with
+         | Some ag ->
+           let arg = fun c ->
+             match c with
+             | Some n1 ->
+               let Node (d0, _, _) = n1 in
+               (match d0 with
+                | DOp _ -> Err OtherExn
+                | DStr s ->
+                  Ok
+                    ((if starts_with_char '\'' s then s else uvl_safename s) :: [])
+                | _ -> Err OtherExn)
+             | None -> Ok []
+           in
+           (match arg l with
+            | Ok a1 ->
+              (match arg r with
+               | Ok a2 -> Ok (KAggr (ag, (app a1 a2)))
+               | Err e -> Err e)
+            | Err e -> Err e)
+         | None ->
+           (match operand l with
+            | Ok cl ->
+              (match operand r with
+               | Ok cr ->
+                 (match o with
+                  | REQUIRES -> Ok (KBin (IMPLIES, cl, cr))
+                  | EXCLUDES -> Ok (KBin (IMPLIES, cl, (KNot cr)))
+                  | _ -> Ok (KBin (o, cl, cr)))
+               | Err e -> Err e)
+            | Err e -> Err e))
+      | MUL ->
+        (match aggr_of o with
+         | Some ag ->
+           let arg = fun c ->
+             match c with
+             | Some n1 ->
+               let Node (d0, _, _) = n1 in
+               (match d0 with
+                | DOp _ -> Err OtherExn
+                | DStr s ->
+                  Ok
+                    ((if starts_with_char '\'' s then s else uvl_safename s) :: [])
+                | _ -> Err OtherExn)
+             | None -> Ok []
+           in
+           (match arg l with
+            | Ok a1 ->
+              (match arg r with
+               | Ok a2 -> Ok (KAggr (ag, (app a1 a2)))
+               | Err e -> Err e)
+            | Err e -> Err e)
+         | None ->
+           (match operand l with
+            | Ok cl ->
+              (match operand r with
+               | Ok cr ->
+                 (match o with
+                  | REQUIRES -> Ok (KBin (IMPLIES, cl, cr))
+                  | EXCLUDES -> Ok (KBin (IMPLIES, cl, (KNot cr)))
+                  | _ -> Ok (KBin (o, cl, cr)))
+               | Err e -> Err e)
+            | Err e -> Err e))
+      | DIV ->
+        (match aggr_of o with
+         | Some ag ->
+           let arg = fun c ->
+             match c with
+             | Some n1 ->
+               let Node (d0, _, _) = n1 in
+               (match d0 with
+                | DOp _ -> Err OtherExn
+                | DStr s ->
+                  Ok
+                    ((if starts_with_char '\'' s then s else uvl_safename s) :: [])
+                | _ -> Err OtherExn)
+             | None -> Ok []
+           in
+           (match arg l with
+            | Ok a1 ->
+              (match arg r with
+               | Ok a2 -> Ok (KAggr (ag, (app a1 a2)))
+               | Err e -> Err e)
+            | Err e -> Err e)
+         | None ->
+           (match operand l with
+            | Ok cl ->
+              (match operand r with
+               | Ok cr ->
+                 (match o with
+                  | REQUIRES -> Ok (KBin (IMPLIES, cl, cr))
+                  | EXCLUDES -> Ok (KBin (IMPLIES, cl, (KNot cr)))
+                  | _ -> Ok (KBin (o, cl, cr)))
+               | Err e -> Err e)
+            | Err e -> Err e))
+      | SUM ->
+        (match aggr_of o with
+         | Some ag ->
+           let arg = fun c ->
+             match c with
+             | Some n1 ->
+               let Node (d0, _, _) = n1 in
+               (match d0 with
+                | DOp _ -> Err OtherExn
+                | DStr s ->
+                  Ok
+                    ((if starts_with_char '\'' s then s else uvl_safename s) :: [])
+                | _ -> Err OtherExn)
+             | None -> Ok []
+           in
+           (match arg l with
+            | Ok a1 ->
+              (match arg r with
+               | Ok a2 -> Ok (KAggr (ag, (app a1 a2)))
+               | Err e -> Err e)
+            | Err e -> Err e)
+         | None ->
+           (match operand l with
+            | Ok cl ->
+              (match operand r with
+               | Ok cr ->
+                 (match o with
+                  | REQUIRES -> Ok (KBin (IMPLIES, cl, cr))
+                  | EXCLUDES -> Ok (KBin (IMPLIES, cl, (KNot cr)))
+                  | _ -> Ok (KBin (o, cl, cr)))
+               | Err e -> Err e)
+            | Err e -> Err e))
+      | AVG ->
+        (match aggr_of o with
+         | Some ag ->
+           let arg = fun c ->
+             match c with
+             | Some n1 ->
+               let Node (d0, _, _) = n1 in
+               (match d0 with
+                | DOp _ -> Err OtherExn
+                | DStr s ->
+                  Ok
+                    ((if starts_with_char '\'' s then s else uvl_safename s) :: [])
+                | _ -> Err OtherExn)
+             | None -> Ok []
+           in
+           (match arg l with
+            | Ok a1 ->
+              (match arg r with
+               | Ok a2 -> Ok (KAggr (ag, (app a1 a2)))
+               | Err e -> Err e)
+            | Err e -> Err e)
+         | None ->
+           (match operand l with
+            | Ok cl ->
+              (match operand r with
+               | Ok cr ->
+                 (match o with
+                  | REQUIRES -> Ok (KBin (IMPLIES, cl, cr))
+                  | EXCLUDES -> Ok (KBin (IMPLIES, cl, (KNot cr)))
+                  | _ -> Ok (KBin (o, cl, cr)))
+               | Err e -> Err e)
+            | Err e -> Err e))
+      | LEN ->
+        (match aggr_of o with
+         | Some ag ->
+           let arg = fun c ->
+             match c with
+             | Some n1 ->
+               let Node (d0, _, _) = n1 in
+               (match d0 with
+                | DOp _ -> Err OtherExn
+                | DStr s ->
+                  Ok
+                    ((if starts_with_char '\'' s then s else uvl_safename s) :: [])
+                | _ -> Err OtherExn)
+             | None -> Ok []
+           in
+           (match arg l with
+            | Ok a1 ->
+              (match arg r with
+               | Ok a2 -> Ok (KAggr (ag, (app a1 a2)))
+               | Err e -> Err e)
+            | Err e -> Err e)
+         | None ->
+           (match operand l with
+            | Ok cl ->
+              (match operand r with
+               | Ok cr ->
+                 (match o with
+                  | REQUIRES -> Ok (KBin (IMPLIES, cl, cr))
+                  | EXCLUDES -> Ok (KBin (IMPLIES, cl, (KNot cr)))
+                  | _ -> Ok (KBin (o, cl, cr)))
+               | Err e -> Err e)
+            | Err e -> Err e))
+      | FLOOR ->
+        (match aggr_of o with
+         | Some ag ->
+           let arg = fun c ->
+             match c with
+             | Some n1 ->
+               let Node (d0, _, _) = n1 in
+               (match d0 with
+                | DOp _ -> Err OtherExn
+                | DStr s ->
+                  Ok
+                    ((if starts_with_char '\'' s then s else uvl_safename s) :: [])
+                | _ -> Err OtherExn)
+             | None -> Ok []
+           in
+           (match arg l with
+            | Ok a1 ->
+              (match arg r with
+               | Ok a2 -> Ok (KAggr (ag, (app a1 a2)))
+               | Err e -> Err e)
+            | Err e -> Err e)
+         | None ->
+           (match operand l with
+            | Ok cl ->
+              (match operand r with
+               | Ok cr ->
+                 (match o with
+                  | REQUIRES -> Ok (KBin (IMPLIES, cl, cr))
+                  | EXCLUDES -> Ok (KBin (IMPLIES, cl, (KNot cr)))
+                  | _ -> Ok (KBin (o, cl, cr)))
+               | Err e -> Err e)
+            | Err e -> Err e))
+      | CEIL ->
+        (match aggr_of o with
+         | Some ag ->
+           let arg = fun c ->
+             match c with
+             | Some n1 ->
+               let Node (d0, _, _) = n1 in
+               (match d0 with
+                | DOp _ -> Err OtherExn
+                | DStr s ->
+                  Ok
+                    ((if starts_with_char '\'' s then s else uvl_safename s) :: [])
+                | _ -> Err OtherExn)
+             | None -> Ok []
+           in
+           (match arg l with
+            | Ok a1 ->
+              (match arg r with
+               | Ok a2 -> Ok (KAggr (ag, (app a1 a2)))
+               | Err e -> Err e)
+            | Err e -> Err e)
+         | None ->
+           (match operand l with
+            | Ok cl ->
+              (match operand r with
+               | Ok cr ->
+                 (match o with
+                  | REQUIRES -> Ok (KBin (IMPLIES, cl, cr))
+                  | EXCLUDES -> Ok (KBin (IMPLIES, cl, (KNot cr)))
+                  | _ -> Ok (KBin (o, cl, cr)))
+               | Err e -> Err e)
+            | Err e -> Err e)))
+   | DStr s ->
+     Ok
+       (if starts_with_char '\'' s then KStr s else KLiteral (uvl_safename s))
+   | DInt z0 -> Ok (KInt (z_to_string z0))
+   | DFloat rp ->
+     (match float_text rp with
+      | Some t -> Ok (KFloat (t, rp))
+      | None -> Err OtherExn)
+   | DBool b ->
+     Ok (KLiteral
+       (if b
+        then 't'::('r'::('u'::('e'::[])))
+        else 'f'::('a'::('l'::('s'::('e'::[])))))))
+
+(** val cst_of_fm : fm -> udoc result **)
+
+let cst_of_fm m =
+  match feature_cst m.root with
+  | Ok rf ->
+    (match mapM (fun c -> node_cst c.c_ast) m.ctcs with
+     | Ok cs ->
+       Ok { d_root = (Some rf); d_ctcs =
+         (match cs with
+          | [] -> None
+          | _ :: _ -> Some cs) }
+     | Err e -> Err e)
+  | Err e -> Err e
+
+(** val tabs : nat -> char list **)
+
+let rec tabs = function
+| O -> []
+| S k -> '\t'::(tabs k)
+
+(** val render_value : uvalue -> char list **)
+
+let rec render_value = function
+| UVBool t -> t
+| UVFloat (t, _) -> t
+| UVInt t -> t
+| UVStr t -> t
+| UVAttrs l ->
+  append ('{'::[])
+    (append
+      (str_join (','::(' '::[]))
+        (map (fun a ->
+          match a with
+          | UAValue (k, v0) ->
+            (match v0 with
+             | Some x -> append k (append (' '::[]) (render_value x))
+             | None -> k)
+          | _ -> []) l)) ('}'::[]))
+| UVVector l ->
+  (match l with
+   | [] ->
+     append ('['::[])
+       (append (str_join (','::(' '::[])) (map render_value l)) (']'::[]))
+   | u :: l0 ->
+     (match u with
+      | UVInt t ->
+        (match l0 with
+         | [] -> append ('['::(' '::[])) (append t (' '::(']'::[])))
+         | _ :: _ ->
+           append ('['::[])
+             (append (str_join (','::(' '::[])) (map render_value l))
+               (']'::[])))
+      | _ ->
+        append ('['::[])
+          (append (str_join (','::(' '::[])) (map render_value l)) (']'::[]))))
+
+(** val render_attrs : uattr list option -> char list **)
+
+let render_attrs = function
+| Some l -> render_value (UVAttrs l)
+| None -> []
+
+(** val render_gkind : gkind -> char list **)
+
+let render_gkind = function
+| GOr -> 'o'::('r'::[])
+| GAlt ->
+  'a'::('l'::('t'::('e'::('r'::('n'::('a'::('t'::('i'::('v'::('e'::[]))))))))))
+| GOpt -> 'o'::('p'::('t'::('i'::('o'::('n'::('a'::('l'::[])))))))
+| GMand -> 'm'::('a'::('n'::('d'::('a'::('t'::('o'::('r'::('y'::[]))))))))
+| GCard t -> t
+
+(** val render_feature : nat -> ufeature -> char list **)
+
+let rec render_feature tab = function
+| UFeature (ty, ref, fc, at_, gs) ->
+  append ('\n'::(tabs tab))
+    (append (match ty with
+             | Some t -> append t (' '::[])
+             | None -> [])
+      (append ref
+        (append (' '::[])
+          (append
+            (match fc with
+             | Some c ->
+               append
+                 ('c'::('a'::('r'::('d'::('i'::('n'::('a'::('l'::('i'::('t'::('y'::(' '::[]))))))))))))
+                 (append c (' '::[]))
+             | None -> [])
+            (append (render_attrs at_)
+              (str_concat
+                (map (fun g ->
+                  let UGroup (k, cs) = g in
+                  append ('\n'::(tabs (S tab)))
+                    (append (render_gkind k)
+                      (str_concat (map (render_feature (S (S tab))) cs)))) gs)))))))
+
+(** val aggr_name : aggr -> char list **)
+
+let aggr_name = function
+| AgSum -> 's'::('u'::('m'::[]))
+| AgAvg -> 'a'::('v'::('g'::[]))
+| AgLen -> 'l'::('e'::('n'::[]))
+| AgFloor -> 'f'::('l'::('o'::('o'::('r'::[]))))
+| AgCeil -> 'c'::('e'::('i'::('l'::[])))
+
+(** val render_cst : ucst -> char list **)
+
+let rec render_cst = function
+| KLiteral r -> r
+| KNot x -> append ('!'::[]) (render_cst x)
+| KBin (o, a, b) ->
+  append (render_cst a)
+    (append (' '::[])
+      (append (match uvl_operator o with
+               | Some s -> s
+               | None -> '?'::[]) (append (' '::[]) (render_cst b))))
+| KParen x -> append ('('::[]) (append (render_cst x) (')'::[]))
+| KInt t -> t
+| KFloat (t, _) -> t
+| KStr t -> t
+| KAggr (a, refs) ->
+  append (aggr_name a)
+    (append ('('::[]) (append (str_join (','::(' '::[])) refs) (')'::[])))
+
+(** val render : udoc -> char list **)
+
+let render d =
+  append ('f'::('e'::('a'::('t'::('u'::('r'::('e'::('s'::[]))))))))
+    (append
+      (match d.d_root with
+       | Some f -> render_feature (S O) f
+       | None -> [])
+      (append ('\n'::[])
+        (match d.d_ctcs with
+         | Some cs ->
+           append
+             ('c'::('o'::('n'::('s'::('t'::('r'::('a'::('i'::('n'::('t'::('s'::[])))))))))))
+             (str_concat (map (fun c -> '\n'::('\t'::(render_cst c))) cs))
+         | None -> [])))
+
+(** val uvl_write : fm -> char list result **)
+
+let uvl_write m =
+  match cst_of_fm m with
+  | Ok d -> Ok (render d)
+  | Err e -> Err e
+
+(** val strip_quotes : char list -> char list **)
+
+let strip_quotes s =
+  str_remove_char '"' s
+
+(** val drop_ends : char list -> char list **)
+
+let drop_ends = function
+| [] -> []
+| _::rest -> str_rev (match str_rev rest with
+                      | [] -> []
+                      | _::t -> t)
+
+(** val split_dotdot :
+    char list -> char list -> (char list * char list) option **)
+
+let rec split_dotdot s acc =
+  match s with
+  | [] -> None
+  | c::rest ->
+    (* If this appears, you're using Ascii internals. Please don't *)
+ (fun f c ->
+  let n = Char.code c in
+  let h i = (n land (1 lsl i)) <> 0 in
+  f (h 0) (h 1) (h 2) (h 3) (h 4) (h 5) (h 6) (h 7))
+      (fun b b0 b1 b2 b3 b4 b5 b6 ->
+      if b
+      then split_dotdot rest (c::acc)
+      else if b0
+           then if b1
+                then if b2
+                     then if b3
+                          then split_dotdot rest (c::acc)
+                          else if b4
+                               then if b5
+                                    then split_dotdot rest (c::acc)
+                                    else if b6
+                                         then split_dotdot rest (c::acc)
+                                         else (match rest with
+                                               | [] ->
+                                                 split_dotdot rest (c::acc)
+                                               | a::rest0 ->
+                                                 (* If this appears, you're using Ascii internals. Please don't *)
+ (fun f c ->
+  let n = Char.code c in
+  let h i = (n land (1 lsl i)) <> 0 in
+  f (h 0) (h 1) (h 2) (h 3) (h 4) (h 5) (h 6) (h 7))
+                                                   (fun b7 b8 b9 b10 b11 b12 b13 b14 ->
+                                                   if b7
+                                                   then split_dotdot rest
+                                                          (c::acc)
+                                                   else if b8
+                                                        then if b9
+                                                             then if b10
+                                                                  then 
+                                                                    if b11
+                                                                    then 
+                                                                    split_dotdot
+                                                                    rest
+                                                                    (c::acc)
+                                                                    else 
+                                                                    if b12
+                                                                    then 
+                                                                    if b13
+                                                                    then 
+                                                                    split_dotdot
+                                                                    rest
+                                                                    (c::acc)
+                                                                    else 
+                                                                    if b14
+                                                                    then 
+                                                                    split_dotdot
+                                                                    rest
+                                                                    (c::acc)
+                                                                    else 
+                                                                    Some
+                                                                    ((str_rev
+                                                                    acc),
+                                                                    rest0)
+                                                                    else 
+                                                                    split_dotdot
+                                                                    rest
+                                                                    (c::acc)
+                                                                  else 
+                                                                    split_dotdot
+                                                                    rest
+                                                                    (c::acc)
+                                                             else split_dotdot
+                                                                    rest
+                                                                    (c::acc)
+                                                        else split_dotdot
+                                                               rest (c::acc))
+                                                   a)
+                               else split_dotdot rest (c::acc)
+                     else split_dotdot rest (c::acc)
+                else split_dotdot rest (c::acc)
+           else split_dotdot rest (c::acc))
+      c
+
+(** val to_int0 : char list -> z result **)
+
+let to_int0 s =
+  match string_to_z s with
+  | Some z0 -> Ok z0
+  | None -> Err ValueError
+
+(** val parse_cardinality : char list -> (z * z) result **)
+
+let parse_cardinality text =
+  let t = drop_ends text in
+  let (mn, mx) = match split_dotdot t [] with
+                 | Some p -> p
+                 | None -> (t, t) in
+  (match to_int0 mn with
+   | Ok a ->
+     (match if eqb0 mx ('*'::[]) then Ok (Zneg XH) else to_int0 mx with
+      | Ok b -> Ok (a, b)
+      | Err e -> Err e)
+   | Err e -> Err e)
+
+(** val value_aval : uvalue -> aval result **)
+
+let rec value_aval = function
+| UVBool t -> Ok (VBool (eqb0 t ('t'::('r'::('u'::('e'::[]))))))
+| UVFloat (_, r) -> Ok (VFloat r)
+| UVInt t -> (match to_int0 t with
+              | Ok z0 -> Ok (VInt z0)
+              | Err e -> Err e)
+| UVStr t -> Ok (VStr (drop_ends t))
+| UVAttrs l ->
+  (match let rec go l0 acc =
+           match l0 with
+           | [] -> Ok acc
+           | u :: rest ->
+             (match u with
+              | UAValue (k, v0) ->
+                (match v0 with
+                 | Some x ->
+                   (match value_aval x with
+                    | Ok x' -> go rest (dict_set acc (strip_quotes k) x')
+                    | Err e -> Err e)
+                 | None -> go rest (dict_set acc (strip_quotes k) VNone))
+              | UAConstraint ->
+                go rest (dict_set acc ('N'::('o'::('n'::('e'::[])))) VNone)
+              | UAOther -> Err ValueError)
+         in go l [] with
+   | Ok kv -> Ok (VMap kv)
+   | Err e -> Err e)
+| UVVector l ->
+  (match mapM value_aval l with
+   | Ok l' -> Ok (VList l')
+   | Err e -> Err e)
+
+(** val read_ftype : char list option -> ftype result **)
+
+let read_ftype = function
+| Some s ->
+  if eqb0 s ('B'::('o'::('o'::('l'::('e'::('a'::('n'::[])))))))
+  then Ok TBoolean
+  else if eqb0 s ('S'::('t'::('r'::('i'::('n'::('g'::[]))))))
+       then Ok TString
+       else if eqb0 s ('I'::('n'::('t'::('e'::('g'::('e'::('r'::[])))))))
+            then Ok TInteger
+            else if eqb0 s ('R'::('e'::('a'::('l'::[]))))
+                 then Ok TReal
+                 else Err FlamaException
+| None -> Ok TBoolean
+
+(** val uvl_read_feature : path -> ptr -> ufeature -> pfeature result **)
+
+let rec uvl_read_feature here parent = function
+| UFeature (ty, ref, fc, at_, gs) ->
+  (match match fc with
+         | Some t -> parse_cardinality t
+         | None -> Ok ((Zpos XH), (Zpos XH)) with
+   | Ok a ->
+     let (cmin, cmax) = a in
+     (match read_ftype ty with
+      | Ok fty ->
+        (match at_ with
+         | Some l ->
+           (match value_aval (UVAttrs l) with
+            | Ok a0 ->
+              (match a0 with
+               | VNone ->
+                 let kv = [] in
+                 let is_abs =
+                   existsb (fun p ->
+                     (&&)
+                       (eqb0 (fst p)
+                         ('a'::('b'::('s'::('t'::('r'::('a'::('c'::('t'::[])))))))))
+                       (match snd p with
+                        | VNone -> true
+                        | x -> aval_truthy x)) kv
+                 in
+                 let attrs =
+                   map (fun p -> { a_name = (fst p); a_dom = None;
+                     a_default = (snd p); a_null = VNone })
+                     (filter (fun p ->
+                       negb
+                         ((&&)
+                           (eqb0 (fst p)
+                             ('a'::('b'::('s'::('t'::('r'::('a'::('c'::('t'::[])))))))))
+                           (match snd p with
+                            | VNone -> true
+                            | x -> aval_truthy x))) kv)
+                 in
+                 let info0 = { f_name = (strip_quotes ref); f_abstract =
+                   (VBool is_abs); f_type = fty; f_cmin = cmin; f_cmax =
+                   cmax; f_attrs = attrs }
+                 in
+                 (match let rec go k = function
+                        | [] -> Ok []
+                        | u :: rest ->
+                          let UGroup (kind, cs) = u in
+                          let per_child =
+                            match kind with
+                            | GOpt -> true
+                            | GMand -> true
+                            | _ -> false
+                          in
+                          (match let rec goc j = function
+                                 | [] -> Ok []
+                                 | c :: cs' ->
+                                   let p =
+                                     if per_child
+                                     then app here (((add k j), O) :: [])
+                                     else app here ((k, j) :: [])
+                                   in
+                                   (match uvl_read_feature p (PPath here) c with
+                                    | Ok pc ->
+                                      (match goc (S j) cs' with
+                                       | Ok pcs -> Ok (pc :: pcs)
+                                       | Err e -> Err e)
+                                    | Err e -> Err e)
+                                 in goc O cs with
+                           | Ok kids ->
+                             let n0 = length kids in
+                             (match kind with
+                              | GOr ->
+                                (match go (S k) rest with
+                                 | Ok prs ->
+                                   Ok ((PRelation ((PPath here), (Zpos XH),
+                                     (Z.of_nat n0), kids)) :: prs)
+                                 | Err e -> Err e)
+                              | GAlt ->
+                                (match go (S k) rest with
+                                 | Ok prs ->
+                                   Ok ((PRelation ((PPath here), (Zpos XH),
+                                     (Zpos XH), kids)) :: prs)
+                                 | Err e -> Err e)
+                              | GCard text ->
+                                (match parse_cardinality text with
+                                 | Ok a1 ->
+                                   let (a2, b) = a1 in
+                                   (match go (S k) rest with
+                                    | Ok prs ->
+                                      Ok ((PRelation ((PPath here), a2, b,
+                                        kids)) :: prs)
+                                    | Err e -> Err e)
+                                 | Err e -> Err e)
+                              | _ ->
+                                let mn =
+                                  match kind with
+                                  | GMand -> Zpos XH
+                                  | _ -> Z0
+                                in
+                                (match go (add k n0) rest with
+                                 | Ok prs ->
+                                   Ok
+                                     (app
+                                       (map (fun c -> PRelation ((PPath
+                                         here), mn, (Zpos XH), (c :: [])))
+                                         kids) prs)
+                                 | Err e -> Err e))
+                           | Err e -> Err e)
+                        in go O gs with
+                  | Ok prs ->
+                    Ok (PFeature (info0, parent,
+                      (map (fun _ -> PPath here) attrs), prs))
+                  | Err e -> Err e)
+               | VBool _ ->
+                 let kv = [] in
+                 let is_abs =
+                   existsb (fun p ->
+                     (&&)
+                       (eqb0 (fst p)
+                         ('a'::('b'::('s'::('t'::('r'::('a'::('c'::('t'::[])))))))))
+                       (match snd p with
+                        | VNone -> true
+                        | x -> aval_truthy x)) kv
+                 in
+                 let attrs =
+                   map (fun p -> { a_name = (fst p); a_dom = None;
+                     a_default = (snd p); a_null = VNone })
+                     (filter (fun p ->
+                       negb
+                         ((&&)
+                           (eqb0 (fst p)
+                             ('a'::('b'::('s'::('t'::('r'::('a'::('c'::('t'::[])))))))))
+                           (match snd p with
+                            | VNone -> true
+                            | x -> aval_truthy x))) kv)
+                 in
+                 let info0 = { f_name = (strip_quotes ref); f_abstract =
+                   (VBool is_abs); f_type = fty; f_cmin = cmin; f_cmax =
+                   cmax; f_attrs = attrs }
+                 in
+                 (match let rec go k = function
+                        | [] -> Ok []
+                        | u :: rest ->
+                          let UGroup (kind, cs) = u in
+                          let per_child =
+                            match kind with
+                            | GOpt -> true
+                            | GMand -> true
+                            | _ -> false
+                          in
+                          (match let rec goc j = function
+                                 | [] -> Ok []
+                                 | c :: cs' ->
+                                   let p =
+                                     if per_child
+                                     then app here (((add k j), O) :: [])
+                                     else app here ((k, j) :: [])
+                                   in
+                                   (match uvl_read_feature p (PPath here) c with
+                                    | Ok pc ->
+                                      (match goc (S j) cs' with
+                                       | Ok pcs -> Ok (pc :: pcs)
+                                       | Err e -> Err e)
+                                    | Err e -> Err e)
+                                 in goc O cs with
+                           | Ok kids ->
+                             let n0 = length kids in
+                             (match kind with
+                              | GOr ->
+                                (match go (S k) rest with
+                                 | Ok prs ->
+                                   Ok ((PRelation ((PPath here), (Zpos XH),
+                                     (Z.of_nat n0), kids)) :: prs)
+                                 | Err e -> Err e)
+                              | GAlt ->
+                                (match go (S k) rest with
+                                 | Ok prs ->
+                                   Ok ((PRelation ((PPath here), (Zpos XH),
+                                     (Zpos XH), kids)) :: prs)
+                                 | Err e -> Err e)
+                              | GCard text ->
+                                (match parse_cardinality text with
+                                 | Ok a1 ->
+                                   let (a2, b) = a1 in
+                                   (match go (S k) rest with
+                                    | Ok prs ->
+                                      Ok ((PRelation ((PPath here), a2, b,
+                                        kids)) :: prs)
+                                    | Err e -> Err e)
+                                 | Err e -> Err e)
+                              | _ ->
+                                let mn =
+                                  match kind with
+                                  | GMand -> Zpos XH
+                                  | _ -> Z0
+                                in
+                                (match go (add k n0) rest with
+                                 | Ok prs ->
+                                   Ok
+                                     (app
+                                       (map (fun c -> PRelation ((PPath
+                                         here), mn, (Zpos XH), (c :: [])))
+                                         kids) prs)
+                                 | Err e -> Err e))
+                           | Err e -> Err e)
+                        in go O gs with
+                  | Ok prs ->
+                    Ok (PFeature (info0, parent,
+                      (map (fun _ -> PPath here) attrs), prs))
+                  | Err e -> Err e)
+               | VInt _ ->
+                 let kv = [] in
+                 let is_abs =
+                   existsb (fun p ->
+                     (&&)
+                       (eqb0 (fst p)
+                         ('a'::('b'::('s'::('t'::('r'::('a'::('c'::('t'::[])))))))))
+                       (match snd p with
+                        | VNone -> true
+                        | x -> aval_truthy x)) kv
+                 in
+                 let attrs =
+                   map (fun p -> { a_name = (fst p); a_dom = None;
+                     a_default = (snd p); a_null = VNone })
+                     (filter (fun p ->
+                       negb
+                         ((&&)
+                           (eqb0 (fst p)
+                             ('a'::('b'::('s'::('t'::('r'::('a'::('c'::('t'::[])))))))))
+                           (match snd p with
+                            | VNone -> true
+                            | x -> aval_truthy x))) kv)
+                 in
+                 let info0 = { f_name = (strip_quotes ref); f_abstract =
+                   (VBool is_abs); f_type = fty; f_cmin = cmin; f_cmax =
+                   cmax; f_attrs = attrs }
+                 in
+                 (match let rec go k = function
+                        | [] -> Ok []
+                        | u :: rest ->
+                          let UGroup (kind, cs) = u in
+                          let per_child =
+                            match kind with
+                            | GOpt -> true
+                            | GMand -> true
+                            | _ -> false
+                          in
+                          (match let rec goc j = function
+                                 | [] -> Ok []
+                                 | c :: cs' ->
+                                   let p =
+                                     if per_child
+                                     then app here (((add k j), O) :: [])
+                                     else app here ((k, j) :: [])
+                                   in
+                                   (match uvl_read_feature p (PPath here) c with
+                                    | Ok pc ->
+                                      (match goc (S j) cs' with
+                                       | Ok pcs -> Ok (pc :: pcs)
+                                       | Err e -> Err e)
+                                    | Err e -> Err e)
+                                 in goc O cs with
+                           | Ok kids ->
+                             let n0 = length kids in
+                             (match kind with
+                              | GOr ->
+                                (match go (S k) rest with
+                                 | Ok prs ->
+                                   Ok ((PRelation ((PPath here), (Zpos XH),
+                                     (Z.of_nat n0), kids)) :: prs)
+                                 | Err e -> Err e)
+                              | GAlt ->
+                                (match go (S k) rest with
+                                 | Ok prs ->
+                                   Ok ((PRelation ((PPath here), (Zpos XH),
+                                     (Zpos XH), kids)) :: prs)
+                                 | Err e -> Err e)
+                              | GCard text ->
+                                (match parse_cardinality text with
+                                 | Ok a1 ->
+                                   let (a2, b) = a1 in
+                                   (match go (S k) rest with
+                                    | Ok prs ->
+                                      Ok ((PRelation ((PPath here), a2, b,
+                                        kids)) :: prs)
+                                    | Err e -> Err e)
+                                 | Err e -> Err e)
+                              | _ ->
+                                let mn =
+                                  match kind with
+                                  | GMand -> Zpos XH
+                                  | _ -> Z0
+                                in
+                                (match go (add k n0) rest with
+                                 | Ok prs ->
+                                   Ok
+                                     (app
+                                       (map (fun c -> PRelation ((PPath
+                                         here), mn, (Zpos XH), (c :: [])))
+                                         kids) prs)
+                                 | Err e -> Err e))
+                           | Err e -> Err e)
+                        in go O gs with
+                  | Ok prs ->
+                    Ok (PFeature (info0, parent,
+                      (map (fun _ -> PPath here) attrs), prs))
+                  | Err e -> Err e)
+               | VFloat _ ->
+                 let kv = [] in
+                 let is_abs =
+                   existsb (fun p ->
+                     (&&)
+                       (eqb0 (fst p)
+                         ('a'::('b'::('s'::('t'::('r'::('a'::('c'::('t'::[])))))))))
+                       (match snd p with
+                        | VNone -> true
+                        | x -> aval_truthy x)) kv
+                 in
+                 let attrs =
+                   map (fun p -> { a_name = (fst p); a_dom = None;
+                     a_default = (snd p); a_null = VNone })
+                     (filter (fun p ->
+                       negb
+                         ((&&)
+                           (eqb0 (fst p)
+                             ('a'::('b'::('s'::('t'::('r'::('a'::('c'::('t'::[])))))))))
+                           (match snd p with
+                            | VNone -> true
+                            | x -> aval_truthy x))) kv)
+                 in
+                 let info0 = { f_name = (strip_quotes ref); f_abstract =
+                   (VBool is_abs); f_type = fty; f_cmin = cmin; f_cmax =
+                   cmax; f_attrs = attrs }
+                 in
+                 (match let rec go k = function
+                        | [] -> Ok []
+                        | u :: rest ->
+                          let UGroup (kind, cs) = u in
+                          let per_child =
+                            match kind with
+                            | GOpt -> true
+                            | GMand -> true
+                            | _ -> false
+                          in
+                          (match let rec goc j = function
+                                 | [] -> Ok []
+                                 | c :: cs' ->
+                                   let p =
+                                     if per_child
+                                     then app here (((add k j), O) :: [])
+                                     else app here ((k, j) :: [])
+                                   in
+                                   (match uvl_read_feature p (PPath here) c with
+                                    | Ok pc ->
+                                      (match goc (S j) cs' with
+                                       | Ok pcs -> Ok (pc :: pcs)
+                                       | Err e -> Err e)
+                                    | Err e -> Err e)
+                                 in goc O cs with
+                           | Ok kids ->
+                             let n0 = length kids in
+                             (match kind with
+                              | GOr ->
+                                (match go (S k) rest with
+                                 | Ok prs ->
+                                   Ok ((PRelation ((PPath here), (Zpos XH),
+                                     (Z.of_nat n0), kids)) :: prs)
+                                 | Err e -> Err e)
+                              | GAlt ->
+                                (match go (S k) rest with
+                                 | Ok prs ->
+                                   Ok ((PRelation ((PPath here), (Zpos XH),
+                                     (Zpos XH), kids)) :: prs)
+                                 | Err e -> Err e)
+                              | GCard text ->
+                                (match parse_cardinality text with
+                                 | Ok a1 ->
+                                   let (a2, b) = a1 in
+                                   (match go (S k) rest with
+                                    | Ok prs ->
+                                      Ok ((PRelation ((PPath here), a2, b,
+                                        kids)) :: prs)
+                                    | Err e -> Err e)
+                                 | Err e -> Err e)
+                              | _ ->
+                                let mn =
+                                  match kind with
+                                  | GMand -> Zpos XH
+                                  | _ -> Z0
+                                in
+                                (match go (add k n0) rest with
+                                 | Ok prs ->
+                                   Ok
+                                     (app
+                                       (map (fun c -> PRelation ((PPath
+                                         here), mn, (Zpos XH), (c :: [])))
+                                         kids) prs)
+                                 | Err e -> Err e))
+                           | Err e -> Err e)
+                        in go O gs with
+                  | Ok prs ->
+                    Ok (PFeature (info0, parent,
+                      (map (fun _ -> PPath here) attrs), prs))
+                  | Err e -> Err e)
+               | VStr _ ->
+                 let kv = [] in
+                 let is_abs =
+                   existsb (fun p ->
+                     (&&)
+                       (eqb0 (fst p)
+                         ('a'::('b'::('s'::('t'::('r'::('a'::('c'::('t'::[])))))))))
+                       (match snd p with
+                        | VNone -> true
+                        | x -> aval_truthy x)) kv
+                 in
+                 let attrs =
+                   map (fun p -> { a_name = (fst p); a_dom = None;
+                     a_default = (snd p); a_null = VNone })
+                     (filter (fun p ->
+                       negb
+                         ((&&)
+                           (eqb0 (fst p)
+                             ('a'::('b'::('s'::('t'::('r'::('a'::('c'::('t'::[])))))))))
+                           (match snd p with
+                            | VNone -> true
+                            | x -> aval_truthy x))) kv)
+                 in
+                 let info0 = { f_name = (strip_quotes ref); f_abstract =
+                   (VBool is_abs); f_type = fty; f_cmin = cmin; f_cmax =
+                   cmax; f_attrs = attrs }
+                 in
+                 (match let rec go k = function
+                        | [] -> Ok []
+                        | u :: rest ->
+                          let UGroup (kind, cs) = u in
+                          let per_child =
+                            match kind with
+                            | GOpt -> true
+                            | GMand -> true
+                            | _ -> false
+                          in
+                          (match let rec goc j = function
+                                 | [] -> Ok []
+                                 | c :: cs' ->
+                                   let p =
+                                     if per_child
+                                     then app here (((add k j), O) :: [])
+                                     else app here ((k, j) :: [])
+                                   in
+                                   (match uvl_read_feature p (PPath here) c with
+                                    | Ok pc ->
+                                      (match goc (S j) cs' with
+                                       | Ok pcs -> Ok (pc :: pcs)
+                                       | Err e -> Err e)
+                                    | Err e -> Err e)
+                                 in goc O cs with
+                           | Ok kids ->
+                             let n0 = length kids in
+                             (match kind with
+                              | GOr ->
+                                (match go (S k) rest with
+                                 | Ok prs ->
+                                   Ok ((PRelation ((PPath here), (Zpos XH),
+                                     (Z.of_nat n0), kids)) :: prs)
+                                 | Err e -> Err e)
+                              | GAlt ->
+                                (match go (S k) rest with
+                                 | Ok prs ->
+                                   Ok ((PRelation ((PPath here), (Zpos XH),
+                                     (Zpos XH), kids)) :: prs)
+                                 | Err e -> Err e)
+                              | GCard text ->
+                                (match parse_cardinality text with
+                                 | Ok a1 ->
+                                   let (a2, b) = a1 in
+                                   (match go (S k) rest with
+                                    | Ok prs ->
+                                      Ok ((PRelation ((PPath here), a2, b,
+                                        kids)) :: prs)
+                                    | Err e -> Err e)
+                                 | Err e -> Err e)
+                              | _ ->
+                                let mn =
+                                  match kind with
+                                  | GMand -> Zpos XH
+                                  | _ -> Z0
+                                in
+                                (match go (add k n0) rest with
+                                 | Ok prs ->
+                                   Ok
+                                     (app
+                                       (map (fun c -> PRelation ((PPath
+                                         here), mn, (Zpos XH), (c :: [])))
+                                         kids) prs)
+                                 | Err e -> Err e))
+                           | Err e -> Err e)
+                        in go O gs with
+                  | Ok prs ->
+                    Ok (PFeature (info0, parent,
+                      (map (fun _ -> PPath here) attrs), prs))
+                  | Err e -> Err e)
+               | VList _ ->
+                 let kv = [] in
+                 let is_abs =
+                   existsb (fun p ->
+                     (&&)
+                       (eqb0 (fst p)
+                         ('a'::('b'::('s'::('t'::('r'::('a'::('c'::('t'::[])))))))))
+                       (match snd p with
+                        | VNone -> true
+                        | x -> aval_truthy x)) kv
+                 in
+                 let attrs =
+                   map (fun p -> { a_name = (fst p); a_dom = None;
+                     a_default = (snd p); a_null = VNone })
+                     (filter (fun p ->
+                       negb
+                         ((&&)
+                           (eqb0 (fst p)
+                             ('a'::('b'::('s'::('t'::('r'::('a'::('c'::('t'::[])))))))))
+                           (match snd p with
+                            | VNone -> true
+                            | x -> aval_truthy x))) kv)
+                 in
+                 let info0 = { f_name = (strip_quotes ref); f_abstract =
+                   (VBool is_abs); f_type = fty; f_cmin = cmin; f_cmax =
+                   cmax; f_attrs = attrs }
+                 in
+                 (match let rec go k = function
+                        | [] -> Ok []
+                        | u :: rest ->
+                          let UGroup (kind, cs) = u in
+                          let per_child =
+                            match kind with
+                            | GOpt -> true
+                            | GMand -> true
+                            | _ -> false
+                          in
+                          (match let rec goc j = function
+                                 | [] -> Ok []
+                                 | c :: cs' ->
+                                   let p =
+                                     if per_child
+                                     then app here (((add k j), O) :: [])
+                                     else app here ((k, j) :: [])
+                                   in
+                                   (match uvl_read_feature p (PPath here) c with
+                                    | Ok pc ->
+                                      (match goc (S j) cs' with
+                                       | Ok pcs -> Ok (pc :: pcs)
+                                       | Err e -> Err e)
+                                    | Err e -> Err e)
+                                 in goc O cs with
+                           | Ok kids ->
+                             let n0 = length kids in
+                             (match kind with
+                              | GOr ->
+                                (match go (S k) rest with
+                                 | Ok prs ->
+                                   Ok ((PRelation ((PPath here), (Zpos XH),
+                                     (Z.of_nat n0), kids)) :: prs)
+                                 | Err e -> Err e)
+                              | GAlt ->
+                                (match go (S k) rest with
+                                 | Ok prs ->
+                                   Ok ((PRelation ((PPath here), (Zpos XH),
+                                     (Zpos XH), kids)) :: prs)
+                                 | Err e -> Err e)
+                              | GCard text ->
+                                (match parse_cardinality text with
+                                 | Ok a1 ->
+                                   let (a2, b) = a1 in
+                                   (match go (S k) rest with
+                                    | Ok prs ->
+                                      Ok ((PRelation ((PPath here), a2, b,
+                                        kids)) :: prs)
+                                    | Err e -> Err e)
+                                 | Err e -> Err e)
+                              | _ ->
+                                let mn =
+                                  match kind with
+                                  | GMand -> Zpos XH
+                                  | _ -> Z0
+                                in
+                                (match go (add k n0) rest with
+                                 | Ok prs ->
+                                   Ok
+                                     (app
+                                       (map (fun c -> PRelation ((PPath
+                                         here), mn, (Zpos XH), (c :: [])))
+                                         kids) prs)
+                                 | Err e -> Err e))
+                           | Err e -> Err e)
+                        in go O gs with
+                  | Ok prs ->
+                    Ok (PFeature (info0, parent,
+                      (map (fun _ -> PPath here) attrs), prs))
+                  | Err e -> Err e)
+               | VMap kv ->
+                 let is_abs =
+                   existsb (fun p ->
+                     (&&)
+                       (eqb0 (fst p)
+                         ('a'::('b'::('s'::('t'::('r'::('a'::('c'::('t'::[])))))))))
+                       (match snd p with
+                        | VNone -> true
+                        | x -> aval_truthy x)) kv
+                 in
+                 let attrs =
+                   map (fun p -> { a_name = (fst p); a_dom = None;
+                     a_default = (snd p); a_null = VNone })
+                     (filter (fun p ->
+                       negb
+                         ((&&)
+                           (eqb0 (fst p)
+                             ('a'::('b'::('s'::('t'::('r'::('a'::('c'::('t'::[])))))))))
+                           (match snd p with
+                            | VNone -> true
+                            | x -> aval_truthy x))) kv)
+                 in
+                 let info0 = { f_name = (strip_quotes ref); f_abstract =
+                   (VBool is_abs); f_type = fty; f_cmin = cmin; f_cmax =
+                   cmax; f_attrs = attrs }
+                 in
+                 (match let rec go k = function
+                        | [] -> Ok []
+                        | u :: rest ->
+                          let UGroup (kind, cs) = u in
+                          let per_child =
+                            match kind with
+                            | GOpt -> true
+                            | GMand -> true
+                            | _ -> false
+                          in
+                          (match let rec goc j = function
+                                 | [] -> Ok []
+                                 | c :: cs' ->
+                                   let p =
+                                     if per_child
+                                     then app here (((add k j), O) :: [])
+                                     else app here ((k, j) :: [])
+                                   in
+                                   (match uvl_read_feature p (PPath here) c with
+                                    | Ok pc ->
+                                      (match goc (S j) cs' with
+                                       | Ok pcs -> Ok (pc :: pcs)
+                                       | Err e -> Err e)
+                                    | Err e -> Err e)
+                                 in goc O cs with
+                           | Ok kids ->
+                             let n0 = length kids in
+                             (match kind with
+                              | GOr ->
+                                (match go (S k) rest with
+                                 | Ok prs ->
+                                   Ok ((PRelation ((PPath here), (Zpos XH),
+                                     (Z.of_nat n0), kids)) :: prs)
+                                 | Err e -> Err e)
+                              | GAlt ->
+                                (match go (S k) rest with
+                                 | Ok prs ->
+                                   Ok ((PRelation ((PPath here), (Zpos XH),
+                                     (Zpos XH), kids)) :: prs)
+                                 | Err e -> Err e)
+                              | GCard text ->
+                                (match parse_cardinality text with
+                                 | Ok a1 ->
+                                   let (a2, b) = a1 in
+                                   (match go (S k) rest with
+                                    | Ok prs ->
+                                      Ok ((PRelation ((PPath here), a2, b,
+                                        kids)) :: prs)
+                                    | Err e -> Err e)
+                                 | Err e -> Err e)
+                              | _ ->
+                                let mn =
+                                  match kind with
+                                  | GMand -> Zpos XH
+                                  | _ -> Z0
+                                in
+                                (match go (add k n0) rest with
+                                 | Ok prs ->
+                                   Ok
+                                     (app
+                                       (map (fun c -> PRelation ((PPath
+                                         here), mn, (Zpos XH), (c :: [])))
+                                         kids) prs)
+                                 | Err e -> Err e))
+                           | Err e -> Err e)
+                        in go O gs with
+                  | Ok prs ->
+                    Ok (PFeature (info0, parent,
+                      (map (fun _ -> PPath here) attrs), prs))
+                  | Err e -> Err e))
+            | Err e -> Err e)
+         | None ->
+           let kv = [] in
+           let is_abs =
+             existsb (fun p ->
+               (&&)
+                 (eqb0 (fst p)
+                   ('a'::('b'::('s'::('t'::('r'::('a'::('c'::('t'::[])))))))))
+                 (match snd p with
+                  | VNone -> true
+                  | x -> aval_truthy x)) kv
+           in
+           let attrs =
+             map (fun p -> { a_name = (fst p); a_dom = None; a_default =
+               (snd p); a_null = VNone })
+               (filter (fun p ->
+                 negb
+                   ((&&)
+                     (eqb0 (fst p)
+                       ('a'::('b'::('s'::('t'::('r'::('a'::('c'::('t'::[])))))))))
+                     (match snd p with
+                      | VNone -> true
+                      | x -> aval_truthy x))) kv)
+           in
+           let info0 = { f_name = (strip_quotes ref); f_abstract = (VBool
+             is_abs); f_type = fty; f_cmin = cmin; f_cmax = cmax; f_attrs =
+             attrs }
+           in
+           (match let rec go k = function
+                  | [] -> Ok []
+                  | u :: rest ->
+                    let UGroup (kind, cs) = u in
+                    let per_child =
+                      match kind with
+                      | GOpt -> true
+                      | GMand -> true
+                      | _ -> false
+                    in
+                    (match let rec goc j = function
+                           | [] -> Ok []
+                           | c :: cs' ->
+                             let p =
+                               if per_child
+                               then app here (((add k j), O) :: [])
+                               else app here ((k, j) :: [])
+                             in
+                             (match uvl_read_feature p (PPath here) c with
+                              | Ok pc ->
+                                (match goc (S j) cs' with
+                                 | Ok pcs -> Ok (pc :: pcs)
+                                 | Err e -> Err e)
+                              | Err e -> Err e)
+                           in goc O cs with
+                     | Ok kids ->
+                       let n0 = length kids in
+                       (match kind with
+                        | GOr ->
+                          (match go (S k) rest with
+                           | Ok prs ->
+                             Ok ((PRelation ((PPath here), (Zpos XH),
+                               (Z.of_nat n0), kids)) :: prs)
+                           | Err e -> Err e)
+                        | GAlt ->
+                          (match go (S k) rest with
+                           | Ok prs ->
+                             Ok ((PRelation ((PPath here), (Zpos XH), (Zpos
+                               XH), kids)) :: prs)
+                           | Err e -> Err e)
+                        | GCard text ->
+                          (match parse_cardinality text with
+                           | Ok a0 ->
+                             let (a1, b) = a0 in
+                             (match go (S k) rest with
+                              | Ok prs ->
+                                Ok ((PRelation ((PPath here), a1, b,
+                                  kids)) :: prs)
+                              | Err e -> Err e)
+                           | Err e -> Err e)
+                        | _ ->
+                          let mn = match kind with
+                                   | GMand -> Zpos XH
+                                   | _ -> Z0
+                          in
+                          (match go (add k n0) rest with
+                           | Ok prs ->
+                             Ok
+                               (app
+                                 (map (fun c -> PRelation ((PPath here), mn,
+                                   (Zpos XH), (c :: []))) kids) prs)
+                           | Err e -> Err e))
+                     | Err e -> Err e)
+                  in go O gs with
+            | Ok prs ->
+              Ok (PFeature (info0, parent, (map (fun _ -> PPath here) attrs),
+                prs))
+            | Err e -> Err e))
+      | Err e -> Err e)
+   | Err e -> Err e)
+
+(** val astop_of_aggr : aggr -> astop **)
+
+let astop_of_aggr = function
+| AgSum -> SUM
+| AgAvg -> AVG
+| AgLen -> LEN
+| AgFloor -> FLOOR
+| AgCeil -> CEIL
+
+(** val uvl_read_ctc : ucst -> node result **)
+
+let rec uvl_read_ctc = function
+| KLiteral r -> Ok (term (strip_quotes r))
+| KNot x -> (match uvl_read_ctc x with
+             | Ok a -> Ok (un NOT a)
+             | Err e -> Err e)
+| KBin (o, a, b) ->
+  (match uvl_read_ctc a with
+   | Ok a' ->
+     (match uvl_read_ctc b with
+      | Ok b' -> Ok (bin o a' b')
+      | Err e -> Err e)
+   | Err e -> Err e)
+| KParen x -> uvl_read_ctc x
+| KInt t ->
+  (match to_int0 t with
+   | Ok z0 -> Ok (Node ((DInt z0), None, None))
+   | Err e -> Err e)
+| KFloat (_, r) -> Ok (Node ((DFloat r), None, None))
+| KStr t -> Ok (term t)
+| KAggr (a, refs) ->
+  (match a with
+   | AgSum ->
+     (match refs with
+      | [] -> Err IndexError
+      | r1 :: l ->
+        (match l with
+         | [] -> Ok (un (astop_of_aggr a) (term (strip_quotes r1)))
+         | r2 :: _ ->
+           Ok
+             (bin (astop_of_aggr a) (term (strip_quotes r1))
+               (term (strip_quotes r2)))))
+   | AgAvg ->
+     (match refs with
+      | [] -> Err IndexError
+      | r1 :: l ->
+        (match l with
+         | [] -> Ok (un (astop_of_aggr a) (term (strip_quotes r1)))
+         | r2 :: _ ->
+           Ok
+             (bin (astop_of_aggr a) (term (strip_quotes r1))
+               (term (strip_quotes r2)))))
+   | _ ->
+     (match refs with
+      | [] -> Err IndexError
+      | r :: _ -> Ok (un (astop_of_aggr a) (term (strip_quotes r)))))
+
+(** val uvl_read_cst : udoc -> pfm result **)
+
+let uvl_read_cst d =
+  match d.d_root with
+  | Some rf ->
+    (match uvl_read_feature [] PNone rf with
+     | Ok pr ->
+       (match mapM uvl_read_ctc (match d.d_ctcs with
+                                 | Some l -> l
+                                 | None -> []) with
+        | Ok ns ->
+          Ok { proot = pr; pctcs =
+            (let rec name_ i = function
+             | [] -> []
+             | n0 :: rest ->
+               { c_name =
+                 (append
+                   ('C'::('o'::('n'::('s'::('t'::('r'::('a'::('i'::('n'::('t'::(' '::[])))))))))))
+                   (z_to_string i)); c_ast =
+                 n0 } :: (name_ (Z.add i (Zpos XH)) rest)
+             in name_ Z0 ns) }
+        | Err e -> Err e)
+     | Err e -> Err e)
+  | None -> Err FlamaException
+
 (** val metric_methods : char list list **)
 
 let metric_methods =
@@ -6404,6 +8532,515 @@ let rec d_xml = function
       | _ -> None))
 | _ -> None
 
+(** val e_uvalue : uvalue -> sexp **)
+
+let rec e_uvalue = function
+| UVBool t -> e_tag ('v'::('b'::[])) ((SStr t) :: [])
+| UVFloat (t, r) -> e_tag ('v'::('f'::[])) ((SStr t) :: ((SStr r) :: []))
+| UVInt t -> e_tag ('v'::('i'::[])) ((SStr t) :: [])
+| UVStr t -> e_tag ('v'::('s'::[])) ((SStr t) :: [])
+| UVAttrs l -> e_tag ('v'::('a'::[])) (map e_uattr l)
+| UVVector l -> e_tag ('v'::('v'::[])) (map e_uvalue l)
+
+(** val e_uattr : uattr -> sexp **)
+
+and e_uattr = function
+| UAValue (k, v) ->
+  e_tag ('a'::('v'::[])) ((SStr
+    k) :: ((match v with
+            | Some x -> e_uvalue x
+            | None -> SAtom ('n'::('i'::('l'::[])))) :: []))
+| UAConstraint -> e_tag ('a'::('c'::[])) []
+| UAOther -> e_tag ('a'::('o'::[])) []
+
+(** val d_uvalue : sexp -> uvalue option **)
+
+let rec d_uvalue = function
+| SList l ->
+  (match l with
+   | [] -> None
+   | s0 :: args ->
+     (match s0 with
+      | SAtom t ->
+        if eqb0 t ('v'::('b'::[]))
+        then (match args with
+              | [] -> None
+              | s1 :: l0 ->
+                (match s1 with
+                 | SStr x ->
+                   (match l0 with
+                    | [] -> Some (UVBool x)
+                    | _ :: _ -> None)
+                 | _ -> None))
+        else if eqb0 t ('v'::('f'::[]))
+             then (match args with
+                   | [] -> None
+                   | s1 :: l0 ->
+                     (match s1 with
+                      | SStr x ->
+                        (match l0 with
+                         | [] -> None
+                         | s2 :: l1 ->
+                           (match s2 with
+                            | SStr r ->
+                              (match l1 with
+                               | [] -> Some (UVFloat (x, r))
+                               | _ :: _ -> None)
+                            | _ -> None))
+                      | _ -> None))
+             else if eqb0 t ('v'::('i'::[]))
+                  then (match args with
+                        | [] -> None
+                        | s1 :: l0 ->
+                          (match s1 with
+                           | SStr x ->
+                             (match l0 with
+                              | [] -> Some (UVInt x)
+                              | _ :: _ -> None)
+                           | _ -> None))
+                  else if eqb0 t ('v'::('s'::[]))
+                       then (match args with
+                             | [] -> None
+                             | s1 :: l0 ->
+                               (match s1 with
+                                | SStr x ->
+                                  (match l0 with
+                                   | [] -> Some (UVStr x)
+                                   | _ :: _ -> None)
+                                | _ -> None))
+                       else if eqb0 t ('v'::('v'::[]))
+                            then option_map (fun x -> UVVector x)
+                                   (omap d_uvalue args)
+                            else if eqb0 t ('v'::('a'::[]))
+                                 then option_map (fun x -> UVAttrs x)
+                                        (omap (fun a ->
+                                          match a with
+                                          | SAtom _ -> None
+                                          | SStr _ -> None
+                                          | SList l0 ->
+                                            (match l0 with
+                                             | [] -> None
+                                             | s1 :: l1 ->
+                                               (match s1 with
+                                                | SAtom ta ->
+                                                  (match l1 with
+                                                   | [] ->
+                                                     if eqb0 ta
+                                                          ('a'::('c'::[]))
+                                                     then Some UAConstraint
+                                                     else if eqb0 ta
+                                                               ('a'::('o'::[]))
+                                                          then Some UAOther
+                                                          else None
+                                                   | s2 :: l2 ->
+                                                     (match s2 with
+                                                      | SStr k ->
+                                                        (match l2 with
+                                                         | [] -> None
+                                                         | v :: l3 ->
+                                                           (match l3 with
+                                                            | [] ->
+                                                              if eqb0 ta
+                                                                   ('a'::('v'::[]))
+                                                              then (match v with
+                                                                    | SAtom _ ->
+                                                                    Some
+                                                                    (UAValue
+                                                                    (k, None))
+                                                                    | _ ->
+                                                                    option_map
+                                                                    (fun x ->
+                                                                    UAValue
+                                                                    (k, (Some
+                                                                    x)))
+                                                                    (d_uvalue
+                                                                    v))
+                                                              else None
+                                                            | _ :: _ -> None))
+                                                      | _ -> None))
+                                                | _ -> None))) args)
+                                 else None
+      | _ -> None))
+| _ -> None
+
+(** val d_uattrs : sexp -> uattr list option option **)
+
+let d_uattrs s = match s with
+| SAtom _ -> Some None
+| _ ->
+  (match d_uvalue s with
+   | Some u -> (match u with
+                | UVAttrs l -> Some (Some l)
+                | _ -> None)
+   | None -> None)
+
+(** val e_gkind : gkind -> sexp **)
+
+let e_gkind = function
+| GOr -> SAtom ('o'::('r'::[]))
+| GAlt -> SAtom ('a'::('l'::('t'::[])))
+| GOpt -> SAtom ('o'::('p'::('t'::[])))
+| GMand -> SAtom ('m'::('a'::('n'::('d'::[]))))
+| GCard t -> e_tag ('c'::('a'::('r'::('d'::[])))) ((SStr t) :: [])
+
+(** val d_gkind : sexp -> gkind option **)
+
+let d_gkind = function
+| SAtom x ->
+  if eqb0 x ('o'::('r'::[]))
+  then Some GOr
+  else if eqb0 x ('a'::('l'::('t'::[])))
+       then Some GAlt
+       else if eqb0 x ('o'::('p'::('t'::[])))
+            then Some GOpt
+            else if eqb0 x ('m'::('a'::('n'::('d'::[]))))
+                 then Some GMand
+                 else None
+| SStr _ -> None
+| SList l ->
+  (match l with
+   | [] -> None
+   | s0 :: l0 ->
+     (match s0 with
+      | SAtom _ ->
+        (match l0 with
+         | [] -> None
+         | s2 :: l1 ->
+           (match s2 with
+            | SStr t -> (match l1 with
+                         | [] -> Some (GCard t)
+                         | _ :: _ -> None)
+            | _ -> None))
+      | _ -> None))
+
+(** val e_ufeature : ufeature -> sexp **)
+
+let rec e_ufeature = function
+| UFeature (ty, ref, fc, at_, gs) ->
+  e_tag ('u'::('f'::[])) ((e_opt (fun x -> SStr x) ty) :: ((SStr
+    ref) :: ((e_opt (fun x -> SStr x) fc) :: ((match at_ with
+                                               | Some l ->
+                                                 e_uvalue (UVAttrs l)
+                                               | None ->
+                                                 SAtom ('n'::('i'::('l'::[])))) :: ((SList
+    (map (fun g ->
+      let UGroup (k, cs) = g in
+      e_tag ('g'::[]) ((e_gkind k) :: ((SList (map e_ufeature cs)) :: [])))
+      gs)) :: [])))))
+
+(** val d_optstr : sexp -> char list option option **)
+
+let d_optstr = function
+| SAtom _ -> Some None
+| SStr x -> Some (Some x)
+| SList _ -> None
+
+(** val d_ufeature : sexp -> ufeature option **)
+
+let rec d_ufeature = function
+| SList l ->
+  (match l with
+   | [] -> None
+   | s0 :: l0 ->
+     (match s0 with
+      | SAtom _ ->
+        (match l0 with
+         | [] -> None
+         | ty :: l1 ->
+           (match l1 with
+            | [] -> None
+            | s2 :: l2 ->
+              (match s2 with
+               | SStr ref ->
+                 (match l2 with
+                  | [] -> None
+                  | fc :: l3 ->
+                    (match l3 with
+                     | [] -> None
+                     | at_ :: l4 ->
+                       (match l4 with
+                        | [] -> None
+                        | s3 :: l5 ->
+                          (match s3 with
+                           | SList gs ->
+                             (match l5 with
+                              | [] ->
+                                (match d_optstr ty with
+                                 | Some ty' ->
+                                   (match d_optstr fc with
+                                    | Some fc' ->
+                                      (match d_uattrs at_ with
+                                       | Some at' ->
+                                         (match omap (fun g ->
+                                                  match g with
+                                                  | SAtom _ -> None
+                                                  | SStr _ -> None
+                                                  | SList l6 ->
+                                                    (match l6 with
+                                                     | [] -> None
+                                                     | s1 :: l7 ->
+                                                       (match s1 with
+                                                        | SAtom _ ->
+                                                          (match l7 with
+                                                           | [] -> None
+                                                           | k :: l8 ->
+                                                             (match l8 with
+                                                              | [] -> None
+                                                              | s4 :: l9 ->
+                                                                (match s4 with
+                                                                 | SAtom _ ->
+                                                                   None
+                                                                 | SStr _ ->
+                                                                   None
+                                                                 | SList cs ->
+                                                                   (match l9 with
+                                                                    | [] ->
+                                                                    (match 
+                                                                    d_gkind k with
+                                                                    | Some k' ->
+                                                                    (match 
+                                                                    omap
+                                                                    d_ufeature
+                                                                    cs with
+                                                                    | Some cs' ->
+                                                                    Some
+                                                                    (UGroup
+                                                                    (k', cs'))
+                                                                    | None ->
+                                                                    None)
+                                                                    | None ->
+                                                                    None)
+                                                                    | _ :: _ ->
+                                                                    None))))
+                                                        | _ -> None))) gs with
+                                          | Some gs' ->
+                                            Some (UFeature (ty', ref, fc',
+                                              at', gs'))
+                                          | None -> None)
+                                       | None -> None)
+                                    | None -> None)
+                                 | None -> None)
+                              | _ :: _ -> None)
+                           | _ -> None))))
+               | _ -> None)))
+      | _ -> None))
+| _ -> None
+
+(** val aggr_atom : aggr -> char list **)
+
+let aggr_atom = function
+| AgSum -> 's'::('u'::('m'::[]))
+| AgAvg -> 'a'::('v'::('g'::[]))
+| AgLen -> 'l'::('e'::('n'::[]))
+| AgFloor -> 'f'::('l'::('o'::('o'::('r'::[]))))
+| AgCeil -> 'c'::('e'::('i'::('l'::[])))
+
+(** val d_aggr : char list -> aggr option **)
+
+let d_aggr s =
+  if eqb0 s ('s'::('u'::('m'::[])))
+  then Some AgSum
+  else if eqb0 s ('a'::('v'::('g'::[])))
+       then Some AgAvg
+       else if eqb0 s ('l'::('e'::('n'::[])))
+            then Some AgLen
+            else if eqb0 s ('f'::('l'::('o'::('o'::('r'::[])))))
+                 then Some AgFloor
+                 else if eqb0 s ('c'::('e'::('i'::('l'::[]))))
+                      then Some AgCeil
+                      else None
+
+(** val e_ucst : ucst -> sexp **)
+
+let rec e_ucst = function
+| KLiteral r -> e_tag ('k'::('l'::[])) ((SStr r) :: [])
+| KNot x -> e_tag ('k'::('n'::[])) ((e_ucst x) :: [])
+| KBin (o, a, b) ->
+  e_tag ('k'::('b'::[])) ((SAtom
+    (astop_value o)) :: ((e_ucst a) :: ((e_ucst b) :: [])))
+| KParen x -> e_tag ('k'::('p'::[])) ((e_ucst x) :: [])
+| KInt t -> e_tag ('k'::('i'::[])) ((SStr t) :: [])
+| KFloat (t, r) -> e_tag ('k'::('f'::[])) ((SStr t) :: ((SStr r) :: []))
+| KStr t -> e_tag ('k'::('s'::[])) ((SStr t) :: [])
+| KAggr (a, refs) ->
+  e_tag ('k'::('a'::[])) ((SAtom (aggr_atom a)) :: ((SList
+    (map (fun x -> SStr x) refs)) :: []))
+
+(** val d_ucst : sexp -> ucst option **)
+
+let rec d_ucst = function
+| SList l ->
+  (match l with
+   | [] -> None
+   | s0 :: args ->
+     (match s0 with
+      | SAtom t ->
+        if eqb0 t ('k'::('l'::[]))
+        then (match args with
+              | [] -> None
+              | s1 :: l0 ->
+                (match s1 with
+                 | SStr r ->
+                   (match l0 with
+                    | [] -> Some (KLiteral r)
+                    | _ :: _ -> None)
+                 | _ -> None))
+        else if eqb0 t ('k'::('n'::[]))
+             then (match args with
+                   | [] -> None
+                   | x :: l0 ->
+                     (match l0 with
+                      | [] -> option_map (fun x0 -> KNot x0) (d_ucst x)
+                      | _ :: _ -> None))
+             else if eqb0 t ('k'::('p'::[]))
+                  then (match args with
+                        | [] -> None
+                        | x :: l0 ->
+                          (match l0 with
+                           | [] -> option_map (fun x0 -> KParen x0) (d_ucst x)
+                           | _ :: _ -> None))
+                  else if eqb0 t ('k'::('b'::[]))
+                       then (match args with
+                             | [] -> None
+                             | s1 :: l0 ->
+                               (match s1 with
+                                | SAtom o ->
+                                  (match l0 with
+                                   | [] -> None
+                                   | a :: l1 ->
+                                     (match l1 with
+                                      | [] -> None
+                                      | b :: l2 ->
+                                        (match l2 with
+                                         | [] ->
+                                           (match astop_of_value o with
+                                            | Some o' ->
+                                              (match d_ucst a with
+                                               | Some a' ->
+                                                 (match d_ucst b with
+                                                  | Some b' ->
+                                                    Some (KBin (o', a', b'))
+                                                  | None -> None)
+                                               | None -> None)
+                                            | None -> None)
+                                         | _ :: _ -> None)))
+                                | _ -> None))
+                       else if eqb0 t ('k'::('i'::[]))
+                            then (match args with
+                                  | [] -> None
+                                  | s1 :: l0 ->
+                                    (match s1 with
+                                     | SStr x ->
+                                       (match l0 with
+                                        | [] -> Some (KInt x)
+                                        | _ :: _ -> None)
+                                     | _ -> None))
+                            else if eqb0 t ('k'::('f'::[]))
+                                 then (match args with
+                                       | [] -> None
+                                       | s1 :: l0 ->
+                                         (match s1 with
+                                          | SStr x ->
+                                            (match l0 with
+                                             | [] -> None
+                                             | s2 :: l1 ->
+                                               (match s2 with
+                                                | SStr r ->
+                                                  (match l1 with
+                                                   | [] ->
+                                                     Some (KFloat (x, r))
+                                                   | _ :: _ -> None)
+                                                | _ -> None))
+                                          | _ -> None))
+                                 else if eqb0 t ('k'::('s'::[]))
+                                      then (match args with
+                                            | [] -> None
+                                            | s1 :: l0 ->
+                                              (match s1 with
+                                               | SStr x ->
+                                                 (match l0 with
+                                                  | [] -> Some (KStr x)
+                                                  | _ :: _ -> None)
+                                               | _ -> None))
+                                      else if eqb0 t ('k'::('a'::[]))
+                                           then (match args with
+                                                 | [] -> None
+                                                 | s1 :: l0 ->
+                                                   (match s1 with
+                                                    | SAtom a ->
+                                                      (match l0 with
+                                                       | [] -> None
+                                                       | s2 :: l1 ->
+                                                         (match s2 with
+                                                          | SList refs ->
+                                                            (match l1 with
+                                                             | [] ->
+                                                               (match 
+                                                                d_aggr a with
+                                                                | Some a' ->
+                                                                  (match 
+                                                                   omap d_str
+                                                                    refs with
+                                                                   | Some r' ->
+                                                                    Some
+                                                                    (KAggr
+                                                                    (a', r'))
+                                                                   | None ->
+                                                                    None)
+                                                                | None -> None)
+                                                             | _ :: _ -> None)
+                                                          | _ -> None))
+                                                    | _ -> None))
+                                           else None
+      | _ -> None))
+| _ -> None
+
+(** val e_udoc : udoc -> sexp **)
+
+let e_udoc d =
+  e_tag ('u'::('d'::('o'::('c'::[]))))
+    ((e_opt e_ufeature d.d_root) :: ((match d.d_ctcs with
+                                      | Some l -> SList (map e_ucst l)
+                                      | None -> SAtom ('n'::('i'::('l'::[])))) :: []))
+
+(** val d_udoc : sexp -> udoc option **)
+
+let d_udoc = function
+| SList l ->
+  (match l with
+   | [] -> None
+   | s0 :: l0 ->
+     (match s0 with
+      | SAtom _ ->
+        (match l0 with
+         | [] -> None
+         | r :: l1 ->
+           (match l1 with
+            | [] -> None
+            | cs :: l2 ->
+              (match l2 with
+               | [] ->
+                 let root_ =
+                   match r with
+                   | SAtom _ -> Some None
+                   | _ -> option_map (fun x -> Some x) (d_ufeature r)
+                 in
+                 let ctcs_ =
+                   match cs with
+                   | SAtom _ -> Some None
+                   | SStr _ -> None
+                   | SList l3 -> option_map (fun x -> Some x) (omap d_ucst l3)
+                 in
+                 (match root_ with
+                  | Some r' ->
+                    (match ctcs_ with
+                     | Some c' -> Some { d_root = r'; d_ctcs = c' }
+                     | None -> None)
+                  | None -> None)
+               | _ :: _ -> None)))
+      | _ -> None))
+| _ -> None
+
 (** val e_names : feature list -> sexp **)
 
 let e_names l =
@@ -6969,6 +9606,106 @@ let dispatch = function
                                                                     | _ :: _ ->
                                                                     bad
                                                                     ('a'::('r'::('i'::('t'::('y'::[]))))))))
+                                                                    else 
+                                                                    if 
+                                                                    eqb0 op
+                                                                    ('u'::('v'::('l'::('_'::('w'::('r'::('i'::('t'::('e'::[])))))))))
+                                                                    then 
+                                                                    (match args with
+                                                                    | [] ->
+                                                                    bad
+                                                                    ('a'::('r'::('i'::('t'::('y'::[])))))
+                                                                    | m :: l0 ->
+                                                                    (match l0 with
+                                                                    | [] ->
+                                                                    (match 
+                                                                    d_fm m with
+                                                                    | Some m' ->
+                                                                    e_result
+                                                                    (fun x ->
+                                                                    SStr x)
+                                                                    (uvl_write
+                                                                    m')
+                                                                    | None ->
+                                                                    bad
+                                                                    ('f'::('m'::[])))
+                                                                    | _ :: _ ->
+                                                                    bad
+                                                                    ('a'::('r'::('i'::('t'::('y'::[])))))))
+                                                                    else 
+                                                                    if 
+                                                                    eqb0 op
+                                                                    ('u'::('v'::('l'::('_'::('c'::('s'::('t'::[])))))))
+                                                                    then 
+                                                                    (match args with
+                                                                    | [] ->
+                                                                    bad
+                                                                    ('a'::('r'::('i'::('t'::('y'::[])))))
+                                                                    | m :: l0 ->
+                                                                    (match l0 with
+                                                                    | [] ->
+                                                                    (match 
+                                                                    d_fm m with
+                                                                    | Some m' ->
+                                                                    e_result
+                                                                    e_udoc
+                                                                    (cst_of_fm
+                                                                    m')
+                                                                    | None ->
+                                                                    bad
+                                                                    ('f'::('m'::[])))
+                                                                    | _ :: _ ->
+                                                                    bad
+                                                                    ('a'::('r'::('i'::('t'::('y'::[])))))))
+                                                                    else 
+                                                                    if 
+                                                                    eqb0 op
+                                                                    ('u'::('v'::('l'::('_'::('r'::('e'::('a'::('d'::('_'::('c'::('s'::('t'::[]))))))))))))
+                                                                    then 
+                                                                    (match args with
+                                                                    | [] ->
+                                                                    bad
+                                                                    ('a'::('r'::('i'::('t'::('y'::[])))))
+                                                                    | c :: l0 ->
+                                                                    (match l0 with
+                                                                    | [] ->
+                                                                    (match 
+                                                                    d_udoc c with
+                                                                    | Some c' ->
+                                                                    e_result
+                                                                    e_pfm
+                                                                    (uvl_read_cst
+                                                                    c')
+                                                                    | None ->
+                                                                    bad
+                                                                    ('u'::('d'::('o'::('c'::[])))))
+                                                                    | _ :: _ ->
+                                                                    bad
+                                                                    ('a'::('r'::('i'::('t'::('y'::[])))))))
+                                                                    else 
+                                                                    if 
+                                                                    eqb0 op
+                                                                    ('u'::('v'::('l'::('_'::('r'::('e'::('n'::('d'::('e'::('r'::[]))))))))))
+                                                                    then 
+                                                                    (match args with
+                                                                    | [] ->
+                                                                    bad
+                                                                    ('a'::('r'::('i'::('t'::('y'::[])))))
+                                                                    | c :: l0 ->
+                                                                    (match l0 with
+                                                                    | [] ->
+                                                                    (match 
+                                                                    d_udoc c with
+                                                                    | Some c' ->
+                                                                    SStr
+                                                                    (render
+                                                                    c')
+                                                                    | None ->
+                                                                    bad
+                                                                    ('u'::('d'::('o'::('c'::[])))))
+                                                                    | _ :: _ ->
+                                                                    bad
+                                                                    ('a'::('r'::('i'::('t'::('y'::[])))))))
                                                                     else 
                                                                     if 
                                                                     eqb0 op
